@@ -1639,6 +1639,157 @@ def run_mc_stream(ctx):
                             {'mc': sc, 'tag': 'connections'})
 
 
+# ---------------------------------------------------------------------------------- text clauses
+# select("<SQL text>") / selectBy(...) followed by filter(<expression>) chains: the text is ONE operand of the
+# conjunction -- the rows selected are exactly those satisfying the text AND every filter (a text with a top-level
+# OR must not capture the filter).  Oracle: the raw rows + the pure-Python three-valued evaluator (`o_expr`).
+
+T_OPS = {'eq': '=', 'ne': '<>', 'lt': '<', 'le': '<=', 'gt': '>', 'ge': '>='}
+T_COLS = ['a', 'bVal', 'p', 'alt', 'fkID']
+
+
+def gen_text_atom(rng, tbl):
+    dom = tbl['dom'] + [tbl['dom'][0] + 1, 1, 0]
+    c = rng.choice(T_COLS)
+    k = rng.random()
+    if k < 0.2:
+        return [rng.choice(['isnull', 'notnull']), ['c', c]]
+    if k < 0.3:
+        return ['not', ['cmp', rng.choice(sorted(T_OPS)), ['c', c], ['l', rng.choice(dom)]]]
+    return ['cmp', rng.choice(sorted(T_OPS)), ['c', c], ['l', rng.choice(dom)]]
+
+
+def text_of(e):
+    k = e[0]
+    if k == 'cmp':
+        return '%s %s %d' % (DBN[e[2][1]], T_OPS[e[1]], e[3][1])
+    if k == 'isnull':
+        return '%s IS NULL' % DBN[e[1][1]]
+    if k == 'notnull':
+        return '%s IS NOT NULL' % DBN[e[1][1]]
+    if k == 'not':
+        return 'NOT (%s)' % text_of(e[1])
+    if k == 'par':
+        return '(%s)' % text_of(e[1])
+    if k == 'and':
+        return '%s AND %s' % (text_of(e[1]), text_of(e[2]))       # operands are atoms / conjunctions
+    if k == 'or':
+        return '%s OR %s' % (text_of(e[1]), text_of(e[2]))        # top level only: never parenthesised
+    raise ValueError(k)
+
+
+def unpar(e):
+    """the expression a text stands for: explicit parentheses dropped"""
+    if e[0] == 'par':
+        return unpar(e[1])
+    if e[0] in ('and', 'or'):
+        return [e[0], unpar(e[1]), unpar(e[2])]
+    if e[0] == 'not':
+        return ['not', unpar(e[1])]
+    return e
+
+
+def gen_text_scenario(rng):
+    tbl = gen_table(rng)
+    tbl['cls'] = rng.choice(['row', 'row', 'dfl', 'ncv'])
+    tbl.pop('ids', None)
+    disj = []
+    for _ in range(rng.choice([1, 2, 2, 3])):
+        conj = gen_text_atom(rng, tbl)
+        if rng.random() < 0.35:
+            conj = ['and', conj, gen_text_atom(rng, tbl)]
+        if rng.random() < 0.45:         # a text that STARTS (or ends) with a parenthesis: "(a = 1) OR b_val = 2"
+            conj = ['par', conj]
+        disj.append(conj)
+    e = disj[0]
+    for x in disj[1:]:
+        e = ['or', e, x]
+    filters = [gen_text_atom(rng, tbl) if rng.random() < 0.7 else ['or', gen_text_atom(rng, tbl), gen_text_atom(rng, tbl)]
+               for _ in range(rng.choice([1, 1, 2, 3]))]
+    kind = rng.choice(['text', 'text', 'text', 'by', 'all'])
+    kw = []
+    if kind == 'by':
+        cols = rng.sample(['a', 'bVal', 'p'], rng.choice([1, 2]))
+        kw = [[c, rng.choice(tbl['dom'] + [None])] for c in cols]
+    return {'table': tbl_spec(tbl), 'kind': kind, 'expr': e, 'kw': kw, 'filters': filters,
+            'distinct': rng.random() < 0.2, 'reversed': rng.random() < 0.2}
+
+
+def run_text_scenario(sc):
+    """returns a list of discrepancies"""
+    tbl = dict(sc['table'])
+    cls, _ = load_table(tbl)
+    rows = raw_rows(cls)
+    if sc['kind'] == 'text':
+        sel = cls.select(text_of(sc['expr']))
+        base = unpar(sc['expr'])
+    elif sc['kind'] == 'by':
+        sel = cls.selectBy(**{c: v for c, v in sc['kw']})
+        base = ['kw', [[c, v] for c, v in sc['kw']]]
+    else:
+        sel = cls.select('all')
+        base = ['tt']
+    bad = []
+
+    def want(parts):
+        return [r[0] for r in rows if all(o_expr(p, r, None) is True for p in parts)]
+
+    def check(what, sel, parts):
+        try:
+            got = sorted(o.id for o in sel)
+            cnt = sel.count()
+        except Exception as ex:
+            bad.append('%s raised %s (sql: %s)' % (what, exc_out(ex), str(sel)))
+            return
+        w = sorted(want(parts))
+        if got != w or cnt != len(w):
+            bad.append('%s: ids %r count %r, rows satisfying every condition: %r (sql: %s)' % (what, got, cnt, w, str(sel)))
+    parts = [base]
+    check('the select itself', sel, parts)
+    for i, f in enumerate(sc['filters']):
+        sel = sel.filter(build_expr(cls, f))
+        parts = parts + [f]
+        check('after %d filter() call(s)' % (i + 1), sel, parts)
+        if sc['reversed'] and i == 0:
+            sel = sel.reversed()
+        if sc['distinct'] and i == 0:
+            sel = sel.distinct()
+    check('filter(None)', sel.filter(None), parts)
+    return bad
+
+
+def run_text_stream(ctx):
+    corpus = [
+        {'table': {'cls': 'row', 'dom': [0, 1, 2], 'rows': [[1, 2, 97, None, 1, 1], [0, 2, None, None, 7, 1], [1, None, 98, None, 3, None],
+                                                            [2, 0, 99, None, 4, 0], [None, None, None, None, 6, None]], 'oth': []},
+         'kind': 'text', 'expr': ['or', ['par', ['cmp', 'eq', ['c', 'a'], ['l', 1]]], ['cmp', 'eq', ['c', 'bVal'], ['l', 2]]],
+         'kw': [], 'filters': [['cmp', 'ge', ['c', 'p'], ['l', 1]]], 'distinct': False, 'reversed': False},
+        {'table': {'cls': 'row', 'dom': [0, 1, 2], 'rows': [[1, 2, 97, None, 1, 1], [0, 2, None, None, 7, 1], [1, None, 98, None, 3, None]], 'oth': []},
+         'kind': 'text', 'expr': ['or', ['cmp', 'eq', ['c', 'a'], ['l', 0]], ['isnull', ['c', 'bVal']]],
+         'kw': [], 'filters': [['cmp', 'eq', ['c', 'a'], ['l', 5]], ['notnull', ['c', 'p']]], 'distinct': True, 'reversed': True},
+        {'table': {'cls': 'row', 'dom': [0, 1, 2], 'rows': [[1, 2, 97, None, 1, 1], [1, None, 98, None, 3, None]], 'oth': []},
+         'kind': 'by', 'expr': ['tt'], 'kw': [['a', 1], ['bVal', None]],
+         'filters': [['or', ['cmp', 'eq', ['c', 'p'], ['l', 0]], ['isnull', ['c', 'p']]]], 'distinct': False, 'reversed': False},
+    ]
+    scenarios = corpus + [gen_text_scenario(ctx.rng) for _ in range(ctx.budget(60, 1500))]
+    for sc in scenarios:
+        try:
+            bad = run_text_scenario(sc)
+        except Exception as ex:
+            bad = ['harness step failed: ' + exc_out(ex) + ' ' + repr(ex)[:200]]
+        top_or = sc['kind'] == 'text' and sc['expr'][0] == 'or'
+        lead_par = sc['kind'] == 'text' and text_of(sc['expr']).startswith('(')
+        ctx.case(('text', json.dumps(sc, sort_keys=True)), nontrivial=True, sample={'scenario': sc, 'bad': bad[:1]},
+                 kind='text-clause:%s%s+%dfilter' % (sc['kind'], ('+top-level-OR' if top_or else '') + ('+leading-paren' if lead_par else ''), len(sc['filters'])))
+        if bad:
+            desc = {'textsc': sc, 'tag': 'text-clause'}
+            ctx.oracle_fail('C11:text:%s' % json.dumps(sc, sort_keys=True, separators=(',', ':')),
+                            '%s %s then filters %s on rows %s: %s'
+                            % (sc['kind'], text_of(sc['expr']) if sc['kind'] == 'text' else sc['kw'], sc['filters'],
+                               sc['table']['rows'], '; '.join(bad[:3])), desc)
+
+
+
 def corpus_cases():
     d = os.path.join(os.path.dirname(os.path.dirname(os.path.abspath(__file__))), 'corpus', 'C11')
     out = []
@@ -1655,6 +1806,7 @@ def run(ctx):
     env()
     rng = ctx.rng
     run_tx_stream(ctx)
+    run_text_stream(ctx)
     run_mc_stream(ctx)
     for fn, c in corpus_cases():
         run_table(ctx, c['table'], [(ph.get('mutations', []), ph['queries']) for ph in c['phases']], 'corpus:' + fn)
